@@ -35,6 +35,8 @@ type c18Case struct {
 	ow      string
 	labels  map[string]bool
 	dstDeep bool
+	child   bool   // run the restore as an unprivileged child process
+	roDir   string // directory (relative to the sandbox root) made read-only (0555) before the run
 }
 
 var c18Names = []string{"a", "b", "c", "x"}
@@ -265,12 +267,109 @@ func c18GenHardlinkFamily(h *H) *c18Case {
 	return c
 }
 
+// c18GenDupLinkFamily: raw tree with a duplicate name: a symlink `d -> outside` and a directory
+// `d` whose only content are items that are created in the SECOND pass (the second name of a
+// hard linked file, symlinks, fifos). The first pass leaves `d` empty, the second pass replaces
+// it by the symlink and then has to re-check the parent before creating anything "in" it.
+func c18GenDupLinkFamily(h *H) *c18Case {
+	c := &c18Case{labels: map[string]bool{}}
+	c.lbl("family-dup-symlink-dir-secondpass-items")
+	c.lbl("duplicate-names")
+	c.lbl("symlink-node")
+	d := h.Pick(c18Names)
+	first := &vNode{Name: "h1", Type: data.NodeTypeFile, Mode: 0644, Links: 2, Inode: 7,
+		Parts: [][]byte{[]byte("hardlinked-7")}}
+	var inner []*vNode
+	switch h.Intn(4) {
+	case 0:
+		inner = append(inner, &vNode{Name: h.Pick(c18Names), Type: data.NodeTypeSymlink, Target: "x"})
+	case 1:
+		inner = append(inner, &vNode{Name: h.Pick(c18Names), Type: data.NodeTypeFifo, Mode: 0644})
+		c.lbl("fifo-node")
+	default:
+		inner = append(inner, &vNode{Name: h.Pick([]string{"h2", "x", "c", "secret"}), Type: data.NodeTypeFile,
+			Mode: 0666, Links: 2, Inode: 7, Parts: [][]byte{[]byte("hardlinked-7")}})
+		c.lbl("hardlink")
+	}
+	if h.Intn(4) == 0 {
+		inner = append(inner, &vNode{Name: "l2", Type: data.NodeTypeSymlink, Target: "."})
+	}
+	link := &vNode{Name: d, Type: data.NodeTypeSymlink,
+		Target: []string{"../outside", "$ABS/outside/sub", "../outside/b"}[h.Intn(3)]}
+	dir := &vNode{Name: d, Type: data.NodeTypeDir, Mode: 0755, Children: inner}
+	if h.Intn(5) == 0 {
+		c.tree = []*vNode{first, dir, link} // control: directory first
+	} else if h.Bool() {
+		c.tree = []*vNode{first, link, dir}
+	} else {
+		c.tree = []*vNode{link, first, dir}
+	}
+	c.filter = "none"
+	c.del = h.Intn(4) == 0
+	if c.del {
+		c.lbl("delete")
+	}
+	// (with --overwrite never the symlink is not restored over the directory: useless here)
+	c.ow = []string{"always", "always", "if-changed"}[h.Intn(3)]
+	c.lbl("ow-" + c.ow)
+	return c
+}
+
+// c18GenUnremovable: the snapshot has a directory where the target holds a symlink to an outside
+// directory, and that symlink CANNOT be removed (its parent directory is 0555, the restore runs
+// as an unprivileged user). Nothing may then be created or changed behind the symlink.
+func c18GenUnremovable(h *H) *c18Case {
+	c := &c18Case{labels: map[string]bool{}, child: true}
+	c.lbl("family-unremovable-symlink")
+	c.lbl("nonroot")
+	c.lbl("pre-symlink-to-outside-dir")
+	a := h.Pick(c18Names)
+	leafs := []*vNode{{Name: h.Pick([]string{"f", "x", "c"}), Type: data.NodeTypeFile, Mode: 0644, Parts: [][]byte{[]byte("new-content")}}}
+	if h.Bool() {
+		leafs = append(leafs, &vNode{Name: "sub2", Type: data.NodeTypeDir, Mode: 0755,
+			Children: []*vNode{{Name: "g", Type: data.NodeTypeFile, Mode: 0600}}})
+	}
+	if h.Intn(3) == 0 {
+		leafs = append(leafs, &vNode{Name: "lnk", Type: data.NodeTypeSymlink, Target: "f"})
+	}
+	dirA := &vNode{Name: a, Type: data.NodeTypeDir, Mode: 0755, Children: leafs}
+	target := "../outside"
+	if h.Bool() {
+		// read-only parent one level down
+		pn := h.Pick([]string{"p", "q"})
+		c.tree = []*vNode{{Name: pn, Type: data.NodeTypeDir, Mode: 0755, Children: []*vNode{dirA}}}
+		c.pre = []c18Pre{{path: filepath.Join("target", pn, a), kind: "symlink", target: "../" + target}}
+		c.roDir = filepath.Join("target", pn)
+	} else {
+		// the target directory itself is read-only
+		c.tree = []*vNode{dirA}
+		c.pre = []c18Pre{{path: filepath.Join("target", a), kind: "symlink", target: target}}
+		c.roDir = "target"
+	}
+	if h.Intn(3) == 0 {
+		c.pre[0].target = "$ABS/outside/sub"
+	}
+	c.filter = "none"
+	c.del = h.Intn(3) == 0
+	if c.del {
+		c.lbl("delete")
+	}
+	c.ow = []string{"always", "if-changed", "never"}[h.Intn(3)]
+	c.lbl("ow-" + c.ow)
+	return c
+}
+
 func c18GenCase(h *H) *c18Case {
-	switch h.Intn(12) {
+	if vCanSetpriv() && h.Intn(15) == 0 {
+		return c18GenUnremovable(h)
+	}
+	switch h.Intn(14) {
 	case 0, 1:
 		return c18GenChain(h)
 	case 2:
 		return c18GenHardlinkFamily(h)
+	case 3:
+		return c18GenDupLinkFamily(h)
 	}
 	c := &c18Case{labels: map[string]bool{}}
 	c.tree = c18GenTree(h, c, 0, "")
@@ -431,6 +530,9 @@ func c18FixTargets(nodes []*vNode, abs string) {
 }
 
 func streamC18(h *H) {
+	if vCanSetpriv() && os.Getenv("RESTIC_VERIF_TMP") != "" {
+		_ = os.Chmod(verifTmpRoot(), 0711) // user nobody must be able to reach the sandboxes
+	}
 	n := h.N(150, 3000)
 	repo, be := vNewRepo()
 	cli := NewCLI(be)
@@ -508,7 +610,23 @@ func streamC18(h *H) {
 			args = append(args, "--"+c.filter, p)
 		}
 		var r CmdResult
-		fin := vWithTimeout(60*time.Second, func(ctx context.Context) { r = cli.RunCtx(ctx, args...) })
+		var fin bool
+		if c.child {
+			// unprivileged run of the real binary on a copy of the repository
+			vChownR(root)
+			if c.roDir != "" {
+				_ = os.Chmod(filepath.Join(root, c.roDir), 0555)
+			}
+			repoDir := MkTemp("c18repo-")
+			_ = os.Chmod(repoDir, 0755)
+			vExportLocal(be, repoDir)
+			exit, out, hang := vChildRestic(repoDir, root, 240*time.Second, args...)
+			_ = os.RemoveAll(repoDir)
+			fin = !hang
+			r = CmdResult{Exit: exit, Stderr: out}
+		} else {
+			fin = vWithTimeout(60*time.Second, func(ctx context.Context) { r = cli.RunCtx(ctx, args...) })
+		}
 
 		afterOut := vDump(outside)
 		afterRoot, _ := readDirNames(root)
@@ -527,7 +645,11 @@ func streamC18(h *H) {
 		}
 		sort.Strings(lbls)
 		h.Rec("lbl", strings.Join(lbls, ","))
-		h.Rec("opt", c.ow, B(c.del), c.filter)
+		runMode := "inproc"
+		if c.child {
+			runMode = "child"
+		}
+		h.Rec("opt", c.ow, B(c.del), c.filter, runMode)
 		for _, p := range c.pats {
 			h.Rec("pat", HexS(p))
 		}
